@@ -388,32 +388,50 @@ def _run_one(args):
         signal.setitimer(signal.ITIMER_REAL, 0)
 
 
+MAX_TIMEOUTS = int(os.environ.get('VERIF_MAX_TIMEOUTS', '12'))
+
+
 def run_impl_all(prop, cases, timeout=20.0):
-    """run prop.run_impl on every case in forked workers; returns enriched cases (same order)."""
+    """run prop.run_impl on every case in forked workers; returns enriched cases (same order).
+    Cases are processed in batches; once MAX_TIMEOUTS implementation time-outs have been seen the remaining cases are
+    not run (each time-out is already a reportable failure; a non-terminating implementation must not stall the check
+    for hours) — the returned list is then shorter than the input and the caller truncates accordingly."""
     global _PROP
     _PROP = prop
     import_impl()
     if hasattr(prop, 'warmup'):
         prop.warmup()
-    out = [None] * len(cases)
-    args = [(i, c, timeout) for i, c in enumerate(cases)]
-    if JOBS <= 1 or len(cases) < 8:
-        _init_worker()
-        res = map(_run_one, args)
-    else:
+    out = []
+    ntimeouts = 0
+    batch = max(64, 16 * JOBS)
+    pool = None
+    if JOBS > 1 and len(cases) >= 8:
         ctx = mp.get_context('fork')
         pool = ctx.Pool(min(JOBS, max(1, len(cases) // 4)), initializer=_init_worker)
-        res = pool.imap(_run_one, args, chunksize=max(1, min(16, len(cases) // (4 * JOBS) + 1)))
-    for i, r, err in res:
-        if err == 'timeout':
-            out[i] = prop.on_timeout(cases[i])
-        elif err:
-            raise HarnessError('run_impl failed on case %d: %s\ncase=%s' % (i, err, json.dumps(cases[i], default=str)[:2000]))
-        else:
-            out[i] = r
-    if JOBS > 1 and len(cases) >= 8:
-        pool.close()
-        pool.join()
+    else:
+        _init_worker()
+    try:
+        for b0 in range(0, len(cases), batch):
+            chunk = cases[b0:b0 + batch]
+            args = [(i, c, timeout) for i, c in enumerate(chunk)]
+            res = pool.imap(_run_one, args, chunksize=max(1, min(8, len(chunk) // (4 * JOBS) + 1))) if pool else map(_run_one, args)
+            got = [None] * len(chunk)
+            for i, r, err in res:
+                if err == 'timeout':
+                    ntimeouts += 1
+                    got[i] = prop.on_timeout(chunk[i])
+                elif err:
+                    raise HarnessError('run_impl failed on case %d: %s\ncase=%s' % (b0 + i, err, json.dumps(chunk[i], default=str)[:2000]))
+                else:
+                    got[i] = r
+            out.extend(got)
+            if ntimeouts >= MAX_TIMEOUTS and b0 + batch < len(cases):
+                print('note: %d implementation time-outs; %d remaining cases not run' % (ntimeouts, len(cases) - len(out)))
+                break
+    finally:
+        if pool:
+            pool.close()
+            pool.join()
     return out
 
 
@@ -449,6 +467,37 @@ def call(f, *a, **k):
 
 
 # ---------------------------------------------------------------------------------------------
+# source fingerprints (DESIGN 2.4(c)): an early warning, never a verdict.  The AST hash of every source file a property is
+# anchored in (properties.jsonl) is recorded in anchors.json for the tree the checks were validated on; when a file of the
+# current tree hashes differently, the quick tier of that property explores with the thorough tier's sample budget.
+
+def ast_hash(path):
+    import ast
+    try:
+        return hashlib.sha1(ast.dump(ast.parse(open(path).read()), include_attributes=False).encode()).hexdigest()[:16]
+    except Exception as e:
+        return 'unparsable:%s' % type(e).__name__
+
+
+def anchor_files(pid):
+    for l in open(os.path.join(VERIF, 'properties.jsonl')):
+        d = json.loads(l)
+        if d.get('id') == pid:
+            return [f for f in d.get('anchors', {}).get('files', []) if f.endswith('.py')]
+    return []
+
+
+def anchors_changed(pid):
+    p = os.path.join(VERIF, 'anchors.json')
+    base = json.load(open(p)) if os.path.exists(p) else {}
+    changed = []
+    for f in anchor_files(pid):
+        if base.get(f) != ast_hash(os.path.join(REPO, f)):
+            changed.append(f)
+    return changed
+
+
+# ---------------------------------------------------------------------------------------------
 # known findings
 
 def load_known():
@@ -480,7 +529,7 @@ def decode(code):
 def evaluate(prop, cases, workdir, tag):
     """implementation run + Coq judgement; returns (enriched cases, codes)"""
     enriched = run_impl_all(prop, cases, timeout=getattr(prop, 'timeout', 20.0))
-    terms = [prop.emit(c) for c in enriched]
+    terms = [prop.emit(c) for c in enriched]          # may be shorter than `cases` after repeated time-outs
     codes = coq_eval(prop.judge_module, terms, workdir, shard=getattr(prop, 'shard', 250), tag=tag)
     return enriched, codes
 
@@ -557,6 +606,10 @@ def run_check(prop, tier, seed, replay=None):
 
         # ---- 2. correspondence
         rng = random.Random(seed)
+        changed_anchors = anchors_changed(pid)
+        gen_tier = tier
+        if changed_anchors and tier == 'quick' and not replay and not os.environ.get('VERIF_NO_ESCALATE'):
+            gen_tier = 'thorough'      # a modelled source file differs from the validated tree: explore deeper
         if replay:
             rc = json.load(open(replay))
             cases = [rc['case']] if 'case' in rc else []
@@ -564,7 +617,7 @@ def run_check(prop, tier, seed, replay=None):
         else:
             corpus = load_corpus(pid)
             corpus_n = len(corpus)
-            cases = corpus + list(prop.generate(rng, tier))
+            cases = corpus + list(prop.generate(rng, gen_tier))
         enriched, codes = evaluate(prop, cases, workdir, 'cases')
         stats = summarize(prop, enriched, codes)
         bad_pred = [(c, code) for c, code in zip(enriched, codes) if decode(code)[0] != 6 and decode(code)[1] != 0]
@@ -657,7 +710,7 @@ def run_check(prop, tier, seed, replay=None):
             ] + list(getattr(prop, 'trusted', [])),
             'theorems': pr['theorems'],
             'coqchk': ({'ran': True, 'ok': chk['ok'], 'axioms': chk['axioms'], 'wall_s': chk['wall_s']} if chk else {'ran': False}),
-            'evaluations': len(cases),
+            'evaluations': len(enriched), 'cases_generated': len(cases),
             'distinct_nontrivial': stats['distinct_nontrivial'],
             'rule': getattr(prop, 'rule', ''),
             'samples': samples,
@@ -667,6 +720,7 @@ def run_check(prop, tier, seed, replay=None):
             'search_cases': searched,
             'histograms': stats['hist'],
             'known_findings_seen': sorted(seen_known.keys()),
+            'anchor_files_changed': changed_anchors, 'sample_budget': gen_tier,
         }
         cov.update(extra_info.get('coverage', {}))
         ev = {
@@ -680,7 +734,7 @@ def run_check(prop, tier, seed, replay=None):
         for l in known_lines:
             print(l)
         print('%s tier=%s seed=%d obligations=%d/%d cases=%d agree=%d disagree=%d predfalse=%d outside=%d indet=%d nontrivial=%d wall=%.1fs'
-              % (pid, tier, seed, cov['discharged'], cov['obligations'], len(cases), stats['agree'], stats['disagree'],
+              % (pid, tier, seed, cov['discharged'], cov['obligations'], len(enriched), stats['agree'], stats['disagree'],
                  stats['predfalse'], stats['outside'], stats['indet'], stats['distinct_nontrivial'], wall))
         if failed:
             print('proof obligations failing: ' + '; '.join(map(str, failed))[:2000])
